@@ -39,6 +39,7 @@ import (
 	"oras.land/oras-go/v2/content/memory"
 	"oras.land/oras-go/v2/content/oci"
 	"oras.land/oras-go/v2/errdef"
+	"oras.land/oras-go/v2/registry/remote"
 	"verifharness/common"
 )
 
@@ -534,9 +535,9 @@ func newTarget(kind string) (storage, func()) {
 	panic("target " + kind)
 }
 
-// keyKind: 0 media type+digest+size, 1 digest, 2 digest per manifest/blob namespace
+// keyKind: 0 media type+digest+size, 1 digest, 2 digest per manifest/blob namespace, 3 file store
 func keyKind(kind string) string {
-	return map[string]string{"memory": "0", "file": "0", "oci": "1", "registry": "2"}[kind]
+	return map[string]string{"memory": "0", "file": "3", "oci": "1", "registry": "2"}[kind]
 }
 
 func callPack(sp *spec, p content.Pusher) (ocispec.Descriptor, error) {
@@ -695,19 +696,31 @@ func packCase(sp *spec) {
 
 	// pre-existing content
 	var storeEntries []string
+	seenEntry := map[string]bool{}
 	addEntry := func(d ocispec.Descriptor, data []byte) {
 		err := inner.Push(ctx, d, bytes.NewReader(data))
-		if err != nil && !errors.Is(err, errdef.ErrAlreadyExists) {
+		if err != nil && !errors.Is(err, errdef.ErrAlreadyExists) && !errors.Is(err, file.ErrDuplicateName) {
 			panic(fmt.Sprintf("prefill %v: %v", d, err))
 		}
-		storeEntries = append(storeEntries, fmt.Sprintf("%s:%s:%d", common.Hex(d.MediaType), common.Hex(string(d.Digest)), d.Size))
+		e := fmt.Sprintf("%s:%s:%d", common.Hex(d.MediaType), common.Hex(string(d.Digest)), d.Size)
+		if d.Annotations[ocispec.AnnotationTitle] != "" {
+			e += ":n" // a named file of the file store
+		}
+		if err == nil || !seenEntry[e] {
+			storeEntries = append(storeEntries, e)
+		}
+		seenEntry[e] = true
 	}
 	for _, p := range sp.Prefill {
 		addEntry(descOf(p.MediaType, []byte(p.Content)), []byte(p.Content))
 	}
 	backed := func(d ocispec.Descriptor) {
 		if c, ok := sp.Backed[string(d.Digest)]; ok {
-			addEntry(ocispec.Descriptor{MediaType: d.MediaType, Digest: d.Digest, Size: d.Size}, []byte(c))
+			e := ocispec.Descriptor{MediaType: d.MediaType, Digest: d.Digest, Size: d.Size}
+			if t := d.Annotations[ocispec.AnnotationTitle]; t != "" && sp.Target == "file" {
+				e.Annotations = map[string]string{ocispec.AnnotationTitle: t} // stored as a named file
+			}
+			addEntry(e, []byte(c))
 		}
 	}
 	for _, d := range sp.Layers {
@@ -720,6 +733,11 @@ func packCase(sp *spec) {
 		backed(*sp.Config)
 	}
 
+	if repo, ok := inner.(*remote.Repository); ok && allBacked(sp, false) {
+		// everything the caller refers to is in the registry: let it validate the manifest
+		repo.Client.(*fakeRegistry).validate = true
+		run.Count("registry_validating")
+	}
 	rec := &recorder{inner: inner, failAt: sp.FailAt}
 	var p content.Pusher = pusherOnly{rec}
 	if sp.Exists {
@@ -869,6 +887,10 @@ func packCase(sp *spec) {
 		len(desc.URLs) != 0 || desc.Data != nil || desc.Platform != nil {
 		fail("descriptor-fields", "descriptor artifactType=%q annotations=%v, want %q %v", desc.ArtifactType, desc.Annotations, e.descAT, e.want.Ann)
 	}
+	// the marshalled document is canonical: object keys of every annotations map are sorted
+	if bad := unsortedAnnotations(stored); bad != "" {
+		fail("annotations-not-canonical", "stored manifest lists annotation keys out of order: %s", bad)
+	}
 	// every invented blob is present
 	for _, d := range e.invented {
 		if isManifestType(d.MediaType) {
@@ -886,7 +908,7 @@ func packCase(sp *spec) {
 		}
 	}
 	// the result can be copied when everything the caller supplied is there
-	if allBacked(sp) {
+	if allBacked(sp, true) {
 		run.Count("copy_checked")
 		dst := memory.New()
 		if cerr := oras.CopyGraph(ctx, inner, dst, desc, oras.DefaultCopyGraphOptions); cerr != nil {
@@ -918,7 +940,25 @@ func packCase(sp *spec) {
 		if err2 != nil || !reflect.DeepEqual(d2, desc) {
 			fail("not-deterministic", "second call on the same target: %v %v, first %v", d2, err2, desc)
 		}
-		other, cleanup2 := newTarget(map[string]string{"memory": "oci", "oci": "memory", "file": "memory", "registry": "memory"}[sp.Target])
+		// Go maps carry no order: the same annotations inserted in another order (and into maps of
+		// another capacity) must give the same bytes, hence the same descriptor
+		rsp := *sp
+		rsp.Ann = reinsert(sp.Ann)
+		rsp.ConfigAnn = reinsert(sp.ConfigAnn)
+		rsp.Layers = nil
+		for _, l := range sp.Layers {
+			l.Annotations = reinsert(l.Annotations)
+			rsp.Layers = append(rsp.Layers, l)
+		}
+		d4, err4 := callPack(&rsp, pusherOnly{&recorder{inner: memory.New(), failAt: -1}})
+		if err4 != nil || !reflect.DeepEqual(d4, desc) {
+			fail("annotation-order-dependent", "same call with annotations inserted in another order: %v %v, first %v", d4, err4, desc)
+		}
+		otherKind := "memory"
+		if sp.Target == "memory" && run.Evaluations%8 == 0 {
+			otherKind = "oci" // a disk-backed target now and then (temp directories are slow)
+		}
+		other, cleanup2 := newTarget(otherKind)
 		d3, err3 := callPack(sp, pusherOnly{&recorder{inner: other, failAt: -1}})
 		cleanup2()
 		if err3 != nil || !reflect.DeepEqual(d3, desc) {
@@ -927,7 +967,7 @@ func packCase(sp *spec) {
 	}
 }
 
-func allBacked(sp *spec) bool {
+func allBacked(sp *spec, count bool) bool {
 	ok := func(d ocispec.Descriptor) bool { _, b := sp.Backed[string(d.Digest)]; return b }
 	if sp.Config != nil && isManifestType(sp.Config.MediaType) {
 		return false // a caller-supplied "config" that CopyGraph would walk as a manifest
@@ -935,7 +975,9 @@ func allBacked(sp *spec) bool {
 	if sp.Config == nil && (sp.Fn == "v10" || sp.Fn == "rc2") && isManifestType(sp.AT) {
 		// the caller asked for a config blob "{}" typed as a manifest: present, but every graph
 		// walk reads it as a manifest without config (caller inconsistency, not judged)
-		run.Count("copy_skipped_config_typed_as_manifest")
+		if count {
+			run.Count("copy_skipped_config_typed_as_manifest")
+		}
 		return false
 	}
 	for _, d := range sp.Layers {
@@ -950,4 +992,65 @@ func allBacked(sp *spec) bool {
 		return false
 	}
 	return true
+}
+
+// reinsert rebuilds a map by inserting the keys in descending order into a map of another capacity.
+func reinsert(m map[string]string) map[string]string {
+	if m == nil {
+		return nil
+	}
+	keys := make([]string, 0, len(m))
+	for k := range m {
+		keys = append(keys, k)
+	}
+	sort.Sort(sort.Reverse(sort.StringSlice(keys)))
+	out := make(map[string]string, 4*len(m)+7)
+	for _, k := range keys {
+		out[k] = m[k]
+	}
+	return out
+}
+
+// unsortedAnnotations walks the raw JSON and reports an "annotations" object whose keys are not
+// in ascending order ("" when all are).
+func unsortedAnnotations(data []byte) string {
+	dec := json.NewDecoder(bytes.NewReader(data))
+	var walk func(inAnn bool) string
+	walk = func(inAnn bool) string {
+		tok, err := dec.Token()
+		if err != nil {
+			return ""
+		}
+		switch d := tok.(type) {
+		case json.Delim:
+			switch d {
+			case '{':
+				prev, first := "", true
+				for dec.More() {
+					kt, err := dec.Token()
+					if err != nil {
+						return ""
+					}
+					k := kt.(string)
+					if inAnn && !first && k <= prev {
+						return fmt.Sprintf("%q after %q", k, prev)
+					}
+					prev, first = k, false
+					if r := walk(k == "annotations"); r != "" {
+						return r
+					}
+				}
+				dec.Token()
+			case '[':
+				for dec.More() {
+					if r := walk(false); r != "" {
+						return r
+					}
+				}
+				dec.Token()
+			}
+		}
+		return ""
+	}
+	return walk(false)
 }
